@@ -787,11 +787,14 @@ func NewMaryBlockFromCbor(
 		return nil, fmt.Errorf("decode Mary block error: %w", err)
 	}
 
+	// A block without a header cannot be used, whether or not the body
+	// hash is validated
+	if maryBlock.BlockHeader == nil {
+		return nil, errors.New("mary block header is nil")
+	}
+
 	// Validate body hash during parsing if not skipped
 	if !cfg.SkipBodyHashValidation {
-		if maryBlock.BlockHeader == nil {
-			return nil, errors.New("mary block header is nil")
-		}
 		if err := common.ValidateBlockBodyHash(
 			data,
 			maryBlock.BlockHeader.BlockBodyHash(),
